@@ -1,20 +1,1219 @@
 //go:build verif
 // +build verif
 
+// Package batch drives the three real "batching" routes (route.NewKafkaMdm, route.NewPubSub, route.NewCloudWatch)
+// against local fakes, offline, and records what can be seen from outside (XBATCH).  It judges nothing: the verdict
+// is TLC's, on the recorded events (spec/BatchRouteTrace.tla).
+//
+//	kafkaMdm    sarama.MockBroker (metadata + produce responses with a scripted error sequence) behind a recording
+//	            TCP proxy that decodes every ProduceRequest (v0 message sets, msgp MetricData) and the
+//	            ProduceResponse that answers it, and can hold a response back
+//	pubsub      an in-process gRPC Publisher (GetTopic, Publish) reached through PUBSUB_EMULATOR_HOST
+//	cloudwatch  an httptest TLS server for monitoring.<region>.amazonaws.com reached through HTTPS_PROXY (a CONNECT
+//	            proxy of this package) and trusted through SSL_CERT_FILE; credentials from the environment
+//
+// No route is changed or hooked: the fakes are selected through the routes' own configuration surface (broker
+// address, environment variables).
 package batch
 
 import (
+	"bufio"
+	"bytes"
+	"compress/gzip"
+	"context"
+	"crypto/ecdsa"
+	"crypto/elliptic"
+	"crypto/rand"
+	"crypto/tls"
+	"crypto/x509"
+	"crypto/x509/pkix"
+	"encoding/binary"
+	"encoding/json"
+	"encoding/pem"
+	"fmt"
+	"io"
+	"io/ioutil"
+	stdlog "log"
+	"math/big"
+	"net"
+	"net/http"
+	"net/http/httptest"
+	"net/url"
+	"os"
+	"path/filepath"
+	"regexp"
+	"runtime"
+	"strconv"
+	"strings"
+	"sync"
+	"sync/atomic"
 	"testing"
+	"time"
 
-	_ "cloud.google.com/go/pubsub"
-	_ "github.com/Shopify/sarama"
-	_ "github.com/aws/aws-sdk-go/service/cloudwatch"
-	_ "github.com/grafana/carbon-relay-ng/route"
-	_ "github.com/kisielk/og-rek"
-	_ "google.golang.org/genproto/googleapis/pubsub/v1"
-	_ "google.golang.org/grpc"
-	_ "google.golang.org/grpc/codes"
-	_ "google.golang.org/grpc/status"
+	"verifharness/hx"
+
+	metrics "github.com/Dieterbe/go-metrics"
+	"github.com/Shopify/sarama"
+	dest "github.com/grafana/carbon-relay-ng/destination"
+	"github.com/grafana/carbon-relay-ng/matcher"
+	"github.com/grafana/carbon-relay-ng/route"
+	"github.com/grafana/carbon-relay-ng/stats"
+	"github.com/grafana/carbon-relay-ng/util"
+	"github.com/grafana/metrictank/schema"
+	ogorek "github.com/kisielk/og-rek"
+	log "github.com/sirupsen/logrus"
+	pb "google.golang.org/genproto/googleapis/pubsub/v1"
+	"google.golang.org/grpc"
+	"google.golang.org/grpc/codes"
+	"google.golang.org/grpc/status"
 )
 
-func TestNothing(t *testing.T) {}
+type step struct {
+	Op  string `json:"op"` // d = dispatch one item; q = settle (timer on); i = wait until the loop idles (timer off); hold / release; y = sleep N ms
+	Sz  int    `json:"sz,omitempty"`
+	Bad int    `json:"bad,omitempty"` // 0 = parsable; 1.. = a way of being unparsable
+	N   int    `json:"n,omitempty"`
+}
+
+type scenario struct {
+	K        int      `json:"k"`
+	Kind     string   `json:"kind"` // kafka | pubsub | cloudwatch
+	Blocking bool     `json:"blocking"`
+	BufSize  int      `json:"bufsize"`
+	FMax     int      `json:"fmax"`
+	FMWms    int      `json:"fmw_ms"`
+	Timer    bool     `json:"timer"`  // fmw_ms is short; false: it is longer than the execution
+	Format   string   `json:"format"` // pubsub: plain | pickle
+	Codec    string   `json:"codec"`  // pubsub: none | gzip
+	Steps    []step   `json:"steps"`
+	Faults   []string `json:"faults"`   // answer to the i-th send (kafka: i-th ProduceRequest): ok | fail; afterwards ok
+	Shutdown string   `json:"shutdown"` // plain | held (while the endpoint holds a send back)
+}
+
+const (
+	slowDispatch    = 5 * time.Second  // non-blocking Dispatch (normal: microseconds)
+	settleDeadline  = 30 * time.Second // everything accepted must be done with by then (normal: a few flushMaxWait)
+	shutdownLimit   = 20 * time.Second
+	exitDeadline    = 30 * time.Second // the run loop must have returned by then after Shutdown
+	harnessDeadline = 20 * time.Second
+	tsBase          = 1500000000
+)
+
+type event map[string]interface{}
+
+type recorder struct {
+	mu  sync.Mutex
+	evs []event
+}
+
+func (r *recorder) add(e event) {
+	r.mu.Lock()
+	r.evs = append(r.evs, e)
+	r.mu.Unlock()
+}
+
+// ---------------------------------------------------------------- the endpoint's script (all kinds)
+
+type endpoint struct {
+	sc      *scenario
+	rec     *recorder
+	mu      sync.Mutex
+	next    int // sends answered so far
+	holding bool
+	held    bool // a send is being held back right now
+	relCh   chan struct{}
+	seen    map[int]bool
+	nsend   int
+	tagf    func() int // attempt tag of a send that arrives now
+}
+
+func newEndpoint(sc *scenario, rec *recorder) *endpoint {
+	return &endpoint{sc: sc, rec: rec, relCh: make(chan struct{}), seen: map[int]bool{}}
+}
+
+// the scripted answer to the next send
+func (e *endpoint) answer() string {
+	e.mu.Lock()
+	defer e.mu.Unlock()
+	st := "ok"
+	if e.next < len(e.sc.Faults) {
+		st = e.sc.Faults[e.next]
+	}
+	e.next++
+	return st
+}
+
+// a send arrived and the endpoint is about to answer it with st: record it, hold it back if told to
+func (e *endpoint) arrived(ids []int, st string, tag int) {
+	e.mu.Lock()
+	e.nsend++
+	if tag < 0 {
+		tag = e.nsend // every send is an attempt of its own
+	}
+	for _, id := range ids {
+		e.seen[id] = true
+	}
+	e.rec.add(event{"ev": "piece", "a": tag, "ids": ids, "st": st})
+	var wait chan struct{}
+	if e.holding {
+		e.held = true
+		wait = e.relCh
+	}
+	e.mu.Unlock()
+	if wait != nil {
+		select {
+		case <-wait:
+		case <-time.After(3 * settleDeadline):
+		}
+	}
+}
+
+func (e *endpoint) hold() {
+	e.mu.Lock()
+	if !e.holding {
+		e.holding = true
+		e.relCh = make(chan struct{})
+	}
+	e.mu.Unlock()
+}
+
+func (e *endpoint) release() {
+	e.mu.Lock()
+	if e.holding {
+		e.holding = false
+		e.held = false
+		close(e.relCh)
+	}
+	e.mu.Unlock()
+}
+
+func (e *endpoint) isHeld() bool {
+	e.mu.Lock()
+	defer e.mu.Unlock()
+	return e.held
+}
+
+func (e *endpoint) nSeen() int {
+	e.mu.Lock()
+	defer e.mu.Unlock()
+	return len(e.seen)
+}
+
+// item id from a metric name "xb<k>.i<id>[.p...]" (-1: not one of this scenario's)
+var nameRe = regexp.MustCompile(`^xb(\d+)\.i(\d+)(\.|$)`)
+
+func idOf(k int, name string, val float64) int {
+	m := nameRe.FindStringSubmatch(name)
+	if m == nil {
+		return -1
+	}
+	kk, _ := strconv.Atoi(m[1])
+	id, _ := strconv.Atoi(m[2])
+	if kk != k || float64(id) != val {
+		return -1
+	}
+	return id
+}
+
+// the line of item id: exactly sz-1 bytes when sz is given (pubsub: size = len(line)+1)
+func lineOf(k, id, sz, bad int) ([]byte, error) {
+	name := fmt.Sprintf("xb%d.i%d", k, id)
+	var tail string
+	switch bad {
+	case 0:
+		tail = fmt.Sprintf(" %d %d", id, tsBase+id)
+	case 1:
+		tail = fmt.Sprintf(" %d", id) // two fields
+	case 2:
+		tail = fmt.Sprintf(" x%d %d", id, tsBase+id) // the value is not a number
+	case 3:
+		tail = fmt.Sprintf(" %d %dx", id, tsBase+id) // the timestamp is not a number
+	default:
+		tail = fmt.Sprintf(" %d %d extra", id, tsBase+id) // four fields
+	}
+	if sz > 0 {
+		pad := sz - 1 - len(name) - len(tail)
+		if pad < 0 || pad == 1 {
+			return nil, fmt.Errorf("size %d too small for item %d", sz, id)
+		}
+		if pad > 0 {
+			name += ".p" + strings.Repeat("x", pad-2)
+		}
+	}
+	return []byte(name + tail), nil
+}
+
+// ---------------------------------------------------------------- kafka: recording proxy in front of sarama.MockBroker
+
+type reporter struct{ rec *recorder }
+
+func (r reporter) Error(a ...interface{}) {
+	r.rec.add(event{"ev": "harness", "what": "mockbroker: " + fmt.Sprint(a...)})
+}
+func (r reporter) Errorf(f string, a ...interface{}) {
+	r.rec.add(event{"ev": "harness", "what": "mockbroker: " + fmt.Sprintf(f, a...)})
+}
+func (r reporter) Fatal(a ...interface{})            { r.Error(a...) }
+func (r reporter) Fatalf(f string, a ...interface{}) { r.Errorf(f, a...) }
+
+type kafkaFake struct {
+	ep     *endpoint
+	broker *sarama.MockBroker
+	ln     net.Listener
+	k      int
+	wg     sync.WaitGroup
+	quit   chan struct{}
+}
+
+type rd struct {
+	b   []byte
+	err error
+}
+
+func (r *rd) take(n int) []byte {
+	if r.err != nil {
+		return nil
+	}
+	if n < 0 || n > len(r.b) {
+		r.err = io.ErrUnexpectedEOF
+		return nil
+	}
+	x := r.b[:n]
+	r.b = r.b[n:]
+	return x
+}
+func (r *rd) i16() int {
+	x := r.take(2)
+	if x == nil {
+		return 0
+	}
+	return int(int16(binary.BigEndian.Uint16(x)))
+}
+func (r *rd) i32() int {
+	x := r.take(4)
+	if x == nil {
+		return 0
+	}
+	return int(int32(binary.BigEndian.Uint32(x)))
+}
+func (r *rd) str() string {
+	n := r.i16()
+	if n < 0 {
+		return ""
+	}
+	return string(r.take(n))
+}
+func (r *rd) bytes32() []byte {
+	n := r.i32()
+	if n < 0 {
+		return nil
+	}
+	return r.take(n)
+}
+
+// decode a ProduceRequest v0..v2 body with uncompressed message sets (magic 0 / 1) into item ids, in payload order
+func decodeProduce(k int, body []byte) ([]int, error) {
+	r := &rd{b: body}
+	r.i16() // required acks
+	r.i32() // timeout
+	var ids []int
+	nt := r.i32()
+	for t := 0; t < nt && r.err == nil; t++ {
+		r.str()
+		np := r.i32()
+		for p := 0; p < np && r.err == nil; p++ {
+			r.i32() // partition
+			set := &rd{b: r.take(r.i32())}
+			for len(set.b) > 0 && set.err == nil {
+				set.take(8) // offset
+				m := &rd{b: set.take(set.i32())}
+				m.take(4) // crc
+				magic := m.take(1)
+				attr := m.take(1)
+				if m.err != nil || magic[0] > 1 || attr[0]&7 != 0 {
+					return nil, fmt.Errorf("unsupported message (magic/compression)")
+				}
+				if magic[0] == 1 {
+					m.take(8)
+				}
+				m.bytes32() // key
+				val := m.bytes32()
+				if m.err != nil {
+					return nil, m.err
+				}
+				var md schema.MetricData
+				if _, err := md.UnmarshalMsg(val); err != nil {
+					return nil, fmt.Errorf("msgp: %v", err)
+				}
+				id := idOf(k, md.Name, md.Value)
+				if id > 0 && md.Time != int64(tsBase+id) {
+					id = -1
+				}
+				ids = append(ids, id)
+			}
+			if set.err != nil {
+				return nil, set.err
+			}
+		}
+	}
+	return ids, r.err
+}
+
+// the error code of a ProduceResponse v0 body (0 = no error on every partition)
+func decodeProduceResponse(body []byte) (int, error) {
+	r := &rd{b: body}
+	code := 0
+	nt := r.i32()
+	for t := 0; t < nt && r.err == nil; t++ {
+		r.str()
+		np := r.i32()
+		for p := 0; p < np && r.err == nil; p++ {
+			r.i32()
+			if c := r.i16(); c != 0 {
+				code = c
+			}
+			r.take(8)
+		}
+	}
+	return code, r.err
+}
+
+func readFrame(c io.Reader) ([]byte, error) {
+	var h [4]byte
+	if _, err := io.ReadFull(c, h[:]); err != nil {
+		return nil, err
+	}
+	n := int(binary.BigEndian.Uint32(h[:]))
+	if n < 0 || n > 64<<20 {
+		return nil, fmt.Errorf("frame of %d bytes", n)
+	}
+	b := make([]byte, n)
+	_, err := io.ReadFull(c, b)
+	return b, err
+}
+
+func writeFrame(c io.Writer, b []byte) error {
+	var h [4]byte
+	binary.BigEndian.PutUint32(h[:], uint32(len(b)))
+	if _, err := c.Write(h[:]); err != nil {
+		return err
+	}
+	_, err := c.Write(b)
+	return err
+}
+
+func newKafkaFake(sc *scenario, ep *endpoint, topic string) (*kafkaFake, error) {
+	ln, err := net.Listen("tcp", "127.0.0.1:0")
+	if err != nil {
+		return nil, err
+	}
+	f := &kafkaFake{ep: ep, ln: ln, k: sc.K, quit: make(chan struct{})}
+	rep := reporter{ep.rec}
+	f.broker = sarama.NewMockBrokerAddr(rep, 1, "127.0.0.1:0")
+	var seq []interface{}
+	for _, st := range sc.Faults {
+		r := sarama.NewMockProduceResponse(rep)
+		if st != "ok" {
+			// not one of the errors sarama retries by itself: SendMessages reports it to the route
+			r.SetError(topic, 0, sarama.ErrMessageSizeTooLarge)
+		}
+		seq = append(seq, r)
+	}
+	seq = append(seq, sarama.NewMockProduceResponse(rep))
+	f.broker.SetHandlerByMap(map[string]sarama.MockResponse{
+		"MetadataRequest": sarama.NewMockMetadataResponse(rep).SetBroker(ln.Addr().String(), 1).SetLeader(topic, 0, 1),
+		"ProduceRequest":  sarama.NewMockSequence(seq...),
+	})
+	f.wg.Add(1)
+	go f.accept()
+	return f, nil
+}
+
+func (f *kafkaFake) addr() string { return f.ln.Addr().String() }
+
+func (f *kafkaFake) accept() {
+	defer f.wg.Done()
+	for {
+		c, err := f.ln.Accept()
+		if err != nil {
+			return
+		}
+		b, err := net.Dial("tcp", f.broker.Addr())
+		if err != nil {
+			c.Close()
+			continue
+		}
+		f.wg.Add(1)
+		go f.serve(c, b)
+	}
+}
+
+// one client connection: requests are forwarded as they are; a ProduceRequest is decoded, the response that
+// answers it (same correlation id; the mock broker answers in order) is decoded, recorded, possibly held, forwarded
+func (f *kafkaFake) serve(c, b net.Conn) {
+	defer f.wg.Done()
+	defer c.Close()
+	defer b.Close()
+	go func() {
+		<-f.quit
+		c.Close()
+		b.Close()
+	}()
+	for {
+		req, err := readFrame(c)
+		if err != nil {
+			return
+		}
+		h := &rd{b: req}
+		key, ver, corr := h.i16(), h.i16(), h.i32()
+		h.str() // client id
+		var ids []int
+		tag := 0
+		if key == 0 {
+			if ver > 2 {
+				f.ep.rec.add(event{"ev": "harness", "what": fmt.Sprintf("ProduceRequest v%d", ver)})
+			}
+			ids, err = decodeProduce(f.k, h.b)
+			if err != nil || h.err != nil {
+				f.ep.rec.add(event{"ev": "harness", "what": fmt.Sprintf("undecodable ProduceRequest: %v %v", err, h.err)})
+			}
+			tag = f.ep.tagf()
+		}
+		if err := writeFrame(b, req); err != nil {
+			return
+		}
+		resp, err := readFrame(b)
+		if err != nil {
+			return
+		}
+		if key == 0 {
+			r := &rd{b: resp}
+			rc := r.i32()
+			code, derr := decodeProduceResponse(r.b)
+			if rc != corr || derr != nil || ver != 0 {
+				f.ep.rec.add(event{"ev": "harness", "what": fmt.Sprintf("ProduceResponse: corr %d/%d err %v version %d", rc, corr, derr, ver)})
+			}
+			st := "ok"
+			if code != 0 {
+				st = "fail"
+			}
+			f.ep.answer() // (keeps the count of answered sends; the mock broker's sequence decides)
+			f.ep.arrived(ids, st, tag)
+		}
+		if err := writeFrame(c, resp); err != nil {
+			return
+		}
+	}
+}
+
+func (f *kafkaFake) close() {
+	close(f.quit)
+	f.ln.Close()
+	f.broker.Close()
+	f.wg.Wait()
+}
+
+// ---------------------------------------------------------------- pubsub: in-process gRPC Publisher
+
+type pubsubFake struct {
+	pb.PublisherServer // (the methods the route does not use are not implemented)
+	mu                 sync.Mutex
+	topics             map[string]*endpoint
+	srv                *grpc.Server
+	addr               string
+}
+
+var psFake *pubsubFake
+
+func startPubsubFake() (*pubsubFake, error) {
+	ln, err := net.Listen("tcp", "127.0.0.1:0")
+	if err != nil {
+		return nil, err
+	}
+	f := &pubsubFake{topics: map[string]*endpoint{}, srv: grpc.NewServer(), addr: ln.Addr().String()}
+	pb.RegisterPublisherServer(f.srv, f)
+	go f.srv.Serve(ln)
+	return f, nil
+}
+
+func (f *pubsubFake) endpointOf(topic string) *endpoint {
+	f.mu.Lock()
+	defer f.mu.Unlock()
+	return f.topics[topic]
+}
+
+func (f *pubsubFake) GetTopic(ctx context.Context, req *pb.GetTopicRequest) (*pb.Topic, error) {
+	if f.endpointOf(req.Topic) == nil {
+		return nil, status.Error(codes.NotFound, "no such topic")
+	}
+	return &pb.Topic{Name: req.Topic}, nil
+}
+
+func decodePubsub(k int, m *pb.PubsubMessage) ([]int, error) {
+	data := m.Data
+	if m.Attributes["codec"] == "gzip" {
+		zr, err := gzip.NewReader(bytes.NewReader(data))
+		if err != nil {
+			return nil, err
+		}
+		if data, err = ioutil.ReadAll(zr); err != nil {
+			return nil, err
+		}
+	}
+	var ids []int
+	switch m.Attributes["content-type"] {
+	case "application/text":
+		for _, l := range strings.Split(strings.TrimSuffix(string(data), "\n"), "\n") {
+			fs := strings.Fields(l)
+			id := -1
+			if len(fs) == 3 {
+				v, _ := strconv.ParseFloat(fs[1], 64)
+				id = idOf(k, fs[0], v)
+			}
+			ids = append(ids, id)
+		}
+	case "application/python-pickle":
+		for len(data) > 0 {
+			if len(data) < 4 {
+				return nil, io.ErrUnexpectedEOF
+			}
+			n := int(binary.BigEndian.Uint32(data))
+			if 4+n > len(data) {
+				return nil, io.ErrUnexpectedEOF
+			}
+			v, err := ogorek.NewDecoder(bytes.NewReader(data[4 : 4+n])).Decode()
+			data = data[4+n:]
+			if err != nil {
+				return nil, err
+			}
+			l, ok := v.([]interface{})
+			if !ok {
+				return nil, fmt.Errorf("pickle: %T", v)
+			}
+			for _, p := range l {
+				id := -1
+				if t, ok := p.(ogorek.Tuple); ok && len(t) == 2 {
+					name, _ := t[0].(string)
+					if tv, ok := t[1].(ogorek.Tuple); ok && len(tv) == 2 {
+						if val, ok := tv[1].(float64); ok {
+							id = idOf(k, name, val)
+						}
+					}
+				}
+				ids = append(ids, id)
+			}
+		}
+	default:
+		return nil, fmt.Errorf("content-type %q", m.Attributes["content-type"])
+	}
+	return ids, nil
+}
+
+func (f *pubsubFake) Publish(ctx context.Context, req *pb.PublishRequest) (*pb.PublishResponse, error) {
+	ep := f.endpointOf(req.Topic)
+	if ep == nil {
+		return nil, status.Error(codes.NotFound, "no such topic")
+	}
+	if len(req.Messages) != 1 {
+		ep.rec.add(event{"ev": "harness", "what": fmt.Sprintf("PublishRequest with %d messages", len(req.Messages))})
+	}
+	var ids []int
+	for _, m := range req.Messages {
+		x, err := decodePubsub(ep.sc.K, m)
+		if err != nil {
+			ep.rec.add(event{"ev": "harness", "what": "undecodable pubsub message: " + err.Error()})
+		}
+		ids = append(ids, x...)
+	}
+	st := ep.answer()
+	ep.arrived(ids, st, -1)
+	if st != "ok" {
+		// not one of the codes the client library retries by itself
+		return nil, status.Error(codes.InvalidArgument, "scripted failure")
+	}
+	out := &pb.PublishResponse{}
+	for range req.Messages {
+		out.MessageIds = append(out.MessageIds, fmt.Sprintf("m%d", time.Now().UnixNano()))
+	}
+	return out, nil
+}
+
+// ---------------------------------------------------------------- cloudwatch: TLS endpoint behind a CONNECT proxy
+
+type cwFake struct {
+	mu  sync.Mutex
+	eps map[string]*endpoint // by namespace
+	srv *httptest.Server
+}
+
+var cw *cwFake
+
+const cwRegion = "us-east-1"
+const cwHost = "monitoring." + cwRegion + ".amazonaws.com"
+
+func (f *cwFake) ServeHTTP(w http.ResponseWriter, r *http.Request) {
+	body, _ := ioutil.ReadAll(r.Body)
+	q, err := url.ParseQuery(string(body))
+	f.mu.Lock()
+	ep := f.eps[q.Get("Namespace")]
+	f.mu.Unlock()
+	if ep == nil {
+		w.WriteHeader(500)
+		return
+	}
+	if err != nil || q.Get("Action") != "PutMetricData" {
+		ep.rec.add(event{"ev": "harness", "what": fmt.Sprintf("cloudwatch request: %v action %q", err, q.Get("Action"))})
+	}
+	var ids []int
+	for i := 1; ; i++ {
+		p := fmt.Sprintf("MetricData.member.%d.", i)
+		name := q.Get(p + "MetricName")
+		if name == "" {
+			break
+		}
+		v, _ := strconv.ParseFloat(q.Get(p+"Value"), 64)
+		id := idOf(ep.sc.K, name, v)
+		if ts, err := time.Parse(time.RFC3339, q.Get(p+"Timestamp")); id > 0 && (err != nil || ts.Unix() != int64(tsBase+id)) {
+			id = -1
+		}
+		ids = append(ids, id)
+	}
+	st := ep.answer()
+	ep.arrived(ids, st, -1)
+	w.Header().Set("Content-Type", "text/xml")
+	if st != "ok" {
+		// a client error: the SDK does not retry it
+		w.WriteHeader(400)
+		fmt.Fprint(w, `<ErrorResponse xmlns="http://monitoring.amazonaws.com/doc/2010-08-01/"><Error><Type>Sender</Type><Code>InvalidParameterValue</Code><Message>scripted failure</Message></Error><RequestId>r</RequestId></ErrorResponse>`)
+		return
+	}
+	fmt.Fprint(w, `<PutMetricDataResponse xmlns="http://monitoring.amazonaws.com/doc/2010-08-01/"><ResponseMetadata><RequestId>r</RequestId></ResponseMetadata></PutMetricDataResponse>`)
+}
+
+// a self-signed certificate for cwHost (its own root), an https server that presents it, a CONNECT proxy that
+// tunnels every request to that server; returns the PEM of the certificate and the proxy address
+func startCloudwatchFake() (*cwFake, []byte, string, error) {
+	key, err := ecdsa.GenerateKey(elliptic.P256(), rand.Reader)
+	if err != nil {
+		return nil, nil, "", err
+	}
+	tmpl := &x509.Certificate{SerialNumber: big.NewInt(1), Subject: pkix.Name{CommonName: cwHost}, DNSNames: []string{cwHost},
+		NotBefore: time.Now().Add(-time.Hour), NotAfter: time.Now().Add(48 * time.Hour), IsCA: true, BasicConstraintsValid: true,
+		KeyUsage: x509.KeyUsageDigitalSignature | x509.KeyUsageCertSign, ExtKeyUsage: []x509.ExtKeyUsage{x509.ExtKeyUsageServerAuth}}
+	der, err := x509.CreateCertificate(rand.Reader, tmpl, tmpl, &key.PublicKey, key)
+	if err != nil {
+		return nil, nil, "", err
+	}
+	certPEM := pem.EncodeToMemory(&pem.Block{Type: "CERTIFICATE", Bytes: der})
+	f := &cwFake{eps: map[string]*endpoint{}}
+	f.srv = httptest.NewUnstartedServer(f)
+	f.srv.TLS = &tls.Config{Certificates: []tls.Certificate{{Certificate: [][]byte{der}, PrivateKey: key}}}
+	f.srv.StartTLS()
+	target := f.srv.Listener.Addr().String()
+	pl, err := net.Listen("tcp", "127.0.0.1:0")
+	if err != nil {
+		return nil, nil, "", err
+	}
+	go func() {
+		for {
+			c, err := pl.Accept()
+			if err != nil {
+				return
+			}
+			go func(c net.Conn) {
+				br := bufio.NewReader(c)
+				req, err := http.ReadRequest(br)
+				if err != nil || req.Method != "CONNECT" || !strings.HasPrefix(req.Host, cwHost) {
+					c.Close()
+					return
+				}
+				t, err := net.Dial("tcp", target)
+				if err != nil {
+					c.Close()
+					return
+				}
+				fmt.Fprint(c, "HTTP/1.1 200 Connection established\r\n\r\n")
+				go func() { io.Copy(t, br); t.Close() }()
+				io.Copy(c, t)
+				c.Close()
+			}(c)
+		}
+	}()
+	return f, certPEM, pl.Addr().String(), nil
+}
+
+// ---------------------------------------------------------------- goroutine states (runtime.Stack)
+
+var gorHead = regexp.MustCompile(`^goroutine (\d+) \[([^\]]*)\]:`)
+
+func curGoroutine() string {
+	buf := make([]byte, 64)
+	buf = buf[:runtime.Stack(buf, false)]
+	f := strings.Fields(string(buf))
+	if len(f) >= 2 && f[0] == "goroutine" {
+		return f[1]
+	}
+	return "?"
+}
+
+type gor struct{ state, top, stack string }
+
+// goroutines created by goroutine `creator` ("created by F in goroutine N")
+func createdBy(creator string) []gor {
+	buf := make([]byte, 1<<18)
+	for {
+		n := runtime.Stack(buf, true)
+		if n < len(buf) {
+			buf = buf[:n]
+			break
+		}
+		buf = make([]byte, 2*len(buf))
+	}
+	var out []gor
+	suffix := " in goroutine " + creator
+	for _, blk := range strings.Split(string(buf), "\n\n") {
+		m := gorHead.FindStringSubmatch(blk)
+		if m == nil {
+			continue
+		}
+		i := strings.LastIndex(blk, "created by ")
+		if i < 0 {
+			continue
+		}
+		line := blk[i:]
+		if j := strings.IndexByte(line, '\n'); j >= 0 {
+			line = line[:j]
+		}
+		if !strings.HasSuffix(strings.TrimSpace(line), suffix) {
+			continue
+		}
+		st := m[2]
+		if j := strings.IndexByte(st, ','); j >= 0 {
+			st = st[:j]
+		}
+		lines := strings.SplitN(blk, "\n", 3)
+		top := ""
+		if len(lines) > 1 {
+			top = lines[1]
+		}
+		out = append(out, gor{state: st, top: top, stack: blk})
+	}
+	return out
+}
+
+var runFn = map[string]string{"kafka": "route.(*KafkaMdm).run(", "pubsub": "route.(*PubSub).run(", "cloudwatch": "route.(*CloudWatch).run("}
+var ctorFn = map[string]string{"kafka": "route.NewKafkaMdm", "pubsub": "route.NewPubSub", "cloudwatch": "route.NewCloudWatch"}
+
+// the run loop of the route that goroutine `creator` constructed: the goroutine its constructor started (it may not
+// have run yet: then its stack shows only the start wrapper).
+// "running" | "idle" (parked in the select of run() itself) | "gone"
+func loopState(creator, kind string) string {
+	for _, g := range createdBy(creator) {
+		i := strings.LastIndex(g.stack, "created by ")
+		if !strings.Contains(g.stack[i:], "carbon-relay-ng/"+ctorFn[kind]+" in goroutine") {
+			continue
+		}
+		if g.state == "select" && strings.Contains(g.top, runFn[kind]) {
+			return "idle"
+		}
+		return "running"
+	}
+	return "gone"
+}
+
+func blockedIn(creator, fn string, states ...string) bool {
+	for _, g := range createdBy(creator) {
+		if strings.Contains(g.stack, fn) {
+			for _, s := range states {
+				if g.state == s {
+					return true
+				}
+			}
+		}
+	}
+	return false
+}
+
+// ---------------------------------------------------------------- one scenario
+
+type counters struct {
+	drops, errs, out, parse metrics.Counter
+	gauge                   metrics.Gauge
+}
+
+func countersOf(dest string, parse bool) counters {
+	c := counters{
+		drops: stats.Counter("dest=" + dest + ".unit=Metric.action=drop.reason=queue_full"),
+		errs:  stats.Counter("dest=" + dest + ".unit=Err.type=flush"),
+		out:   stats.Counter("dest=" + dest + ".unit=Metric.direction=out"),
+		gauge: stats.Gauge("dest=" + dest + ".unit=Metric.what=numBuffered"),
+	}
+	if parse {
+		c.parse = stats.Counter("dest=" + dest + ".unit.Err.type=parse")
+	}
+	return c
+}
+
+func runScenario(t *testing.T, sc scenario, schemas string, progress *hx.Log) []event {
+	rec := &recorder{}
+	rec.add(event{"ev": "scen", "k": sc.K, "kind": sc.Kind, "blocking": sc.Blocking, "bufsize": sc.BufSize, "fmax": sc.FMax, "timer": sc.Timer})
+	me := curGoroutine()
+	ep := newEndpoint(&sc, rec)
+	key := fmt.Sprintf("xbatch-%d-%d", hx.Seed(), sc.K)
+	progress.Emit(event{"k": sc.K, "at": "new", "kind": sc.Kind})
+
+	var rt route.Route
+	var err error
+	var cnt counters
+	var cleanup func()
+	switch sc.Kind {
+	case "kafka":
+		topic := fmt.Sprintf("xb%d", sc.K)
+		kf, kerr := newKafkaFake(&sc, ep, topic)
+		if kerr != nil {
+			t.Fatalf("kafka fake: %v", kerr)
+		}
+		cleanup = kf.close
+		cnt = countersOf(util.AddrToPath(kf.addr()), false)
+		o0, e0 := cnt.out.Count(), cnt.errs.Count()
+		// attempts completed so far: every one of them moved numOut (>= 1 item) or numErrFlush (1) before the
+		// next SendMessages began
+		ep.tagf = func() int { return int(cnt.out.Count() - o0 + cnt.errs.Count() - e0) }
+		rt, err = route.NewKafkaMdm(key, matcher.Matcher{}, topic, "none", schemas, "byOrg", []string{kf.addr()}, sc.BufSize, 1,
+			sc.FMax, sc.FMWms, 2000, sc.Blocking, false, false, "", "", false, "", "", "")
+	case "pubsub":
+		topic := fmt.Sprintf("xb-%d-%d", hx.Seed(), sc.K)
+		full := "projects/xbatch/topics/" + topic
+		psFake.mu.Lock()
+		psFake.topics[full] = ep
+		psFake.mu.Unlock()
+		cleanup = func() {}
+		cnt = countersOf(topic, true)
+		rt, err = route.NewPubSub(key, matcher.Matcher{}, "xbatch", topic, sc.Format, sc.Codec, sc.BufSize, sc.FMax, sc.FMWms, sc.Blocking)
+	case "cloudwatch":
+		ns := fmt.Sprintf("xbatch-%d", sc.K)
+		cw.mu.Lock()
+		cw.eps[ns] = ep
+		cw.mu.Unlock()
+		cleanup = func() {}
+		cnt = countersOf("cloudwatch", false)
+		rt, err = route.NewCloudWatch(key, matcher.Matcher{}, "", cwRegion, ns, [][]string{{"relay", "verif"}}, sc.BufSize, sc.FMax, sc.FMWms, 60, sc.Blocking)
+	default:
+		t.Fatalf("kind %q", sc.Kind)
+	}
+	if err != nil {
+		t.Fatalf("constructor of %s: %v", sc.Kind, err)
+	}
+	defer cleanup()
+	drops0, errs0, out0, gauge0 := cnt.drops.Count(), cnt.errs.Count(), cnt.out.Count(), cnt.gauge.Value()
+	var parse0 int64
+	if cnt.parse != nil {
+		parse0 = cnt.parse.Count()
+	}
+
+	// the dispatcher: one goroutine, created by this one
+	var want int64 // accepted parsable items so far
+	aborted := false
+	id := 0
+	type call struct {
+		line []byte
+		done chan struct{}
+	}
+	calls := make(chan call)
+	go func() {
+		for c := range calls {
+			rt.Dispatch(c.line)
+			close(c.done)
+		}
+	}()
+	defer close(calls)
+
+	dispatch := func(st step) bool {
+		id++
+		line, lerr := lineOf(sc.K, id, st.Sz, st.Bad)
+		if lerr != nil {
+			rec.add(event{"ev": "harness", "what": lerr.Error()})
+			return false
+		}
+		sz := st.Sz
+		if sz == 0 {
+			sz = 1
+		}
+		// what the item adds to the pending batch: the line and its newline, or (pubsub pickle) the pickled point -
+		// measured with the repository's own conversion
+		asz := sz
+		if sc.Kind == "pubsub" && sc.Format == "pickle" && st.Bad == 0 {
+			dp, perr := dest.ParseDataPoint(line)
+			if perr != nil {
+				rec.add(event{"ev": "harness", "what": "a parsable line does not parse: " + perr.Error()})
+				return false
+			}
+			asz = len(dest.Pickle(dp))
+		}
+		rec.add(event{"ev": "disp", "id": id, "sz": sz, "asz": asz, "bad": st.Bad != 0})
+		d0 := cnt.drops.Count()
+		c := call{line, make(chan struct{})}
+		calls <- c
+		t0 := time.Now()
+		for {
+			select {
+			case <-c.done:
+				status := "acc"
+				if cnt.drops.Count() != d0 {
+					status = "drop"
+				} else if st.Bad == 0 {
+					atomic.AddInt64(&want, 1)
+				}
+				rec.add(event{"ev": "ret", "id": id, "st": status})
+				return true
+			case <-time.After(time.Millisecond):
+			}
+			// a caller parked on the full buffer while the endpoint holds a send back: that is what the hold was
+			// for; let the endpoint go on
+			if sc.Blocking && ep.isHeld() && blockedIn(me, "route.dispatchBlocking(", "chan send") {
+				rec.add(event{"ev": "parked", "id": id})
+				ep.release()
+			}
+			if d := time.Since(t0); (!sc.Blocking && d > slowDispatch) || d > settleDeadline {
+				rec.add(event{"ev": "stall", "id": id})
+				return false
+			}
+		}
+	}
+
+	for _, st := range sc.Steps {
+		if aborted {
+			break
+		}
+		switch st.Op {
+		case "d":
+			if !dispatch(st) {
+				aborted = true
+			}
+		case "q":
+			deadline := time.Now().Add(settleDeadline)
+			ok := false
+			for {
+				w := int(atomic.LoadInt64(&want))
+				if sc.Kind == "kafka" {
+					ok = int(cnt.out.Count()-out0) >= w
+				} else {
+					ok = ep.nSeen() >= w
+				}
+				if ok || time.Now().After(deadline) {
+					break
+				}
+				time.Sleep(time.Millisecond)
+			}
+			rec.add(event{"ev": "settle", "ok": ok})
+		case "i":
+			deadline := time.Now().Add(settleDeadline)
+			ok := false
+			for {
+				if cnt.gauge.Value() == gauge0 && loopState(me, sc.Kind) == "idle" && cnt.gauge.Value() == gauge0 {
+					ok = true
+					break
+				}
+				if time.Now().After(deadline) {
+					break
+				}
+				time.Sleep(time.Millisecond)
+			}
+			rec.add(event{"ev": "idle", "ok": ok})
+		case "hold":
+			ep.hold()
+		case "release":
+			ep.release()
+		case "y":
+			time.Sleep(time.Duration(st.N) * time.Millisecond)
+		}
+	}
+	progress.Emit(event{"k": sc.K, "at": "dispatched"})
+
+	if aborted {
+		ep.release()
+		rec.add(event{"ev": "abort"})
+		rec.mu.Lock()
+		defer rec.mu.Unlock()
+		return rec.evs
+	}
+
+	// Shutdown
+	if sc.Shutdown != "held" {
+		ep.release()
+	} else {
+		// give the route the time to run into the held endpoint (or to find nothing to send)
+		deadline := time.Now().Add(2 * time.Second)
+		for !ep.isHeld() && time.Now().Before(deadline) {
+			if cnt.gauge.Value() == gauge0 && loopState(me, sc.Kind) == "idle" && cnt.gauge.Value() == gauge0 && !ep.isHeld() {
+				break
+			}
+			time.Sleep(time.Millisecond)
+		}
+	}
+	done := make(chan struct{})
+	rec.add(event{"ev": "sdcall", "held": ep.isHeld(), "queued": int(cnt.gauge.Value() - gauge0)})
+	go func() {
+		rt.Shutdown()
+		// recorded by the returning goroutine itself: nothing the route does afterwards can precede it
+		rec.add(event{"ev": "sdret"})
+		close(done)
+	}()
+	returned := false
+	if sc.Shutdown == "held" {
+		// the endpoint goes on once Shutdown has returned or is waiting for something
+		deadline := time.Now().Add(harnessDeadline)
+	wait:
+		for {
+			select {
+			case <-done:
+				returned = true
+				break wait
+			default:
+			}
+			if blockedIn(me, ").Shutdown(", "semacquire", "chan receive", "select", "sync.WaitGroup.Wait", "sync.Mutex.Lock", "sync.Cond.Wait", "chan send") {
+				rec.add(event{"ev": "sdwaits"})
+				break
+			}
+			if time.Now().After(deadline) {
+				rec.add(event{"ev": "harness", "what": "the Shutdown call neither blocked nor returned"})
+				break
+			}
+			time.Sleep(time.Millisecond)
+		}
+		ep.release()
+	}
+	if !returned {
+		select {
+		case <-done:
+			returned = true
+		case <-time.After(shutdownLimit):
+			rec.add(event{"ev": "sdtimeout", "limit_s": int(shutdownLimit / time.Second)})
+		}
+	}
+	// the run loop returns
+	deadline := time.Now().Add(exitDeadline)
+	gone := false
+	for {
+		if loopState(me, sc.Kind) == "gone" {
+			gone = true
+			break
+		}
+		if time.Now().After(deadline) {
+			break
+		}
+		time.Sleep(time.Millisecond)
+	}
+	rec.add(event{"ev": "exit", "ok": gone})
+	nparse := -1
+	if cnt.parse != nil && sc.Format == "pickle" {
+		nparse = int(cnt.parse.Count() - parse0)
+	}
+	ep.mu.Lock()
+	nsend := ep.nsend
+	ep.mu.Unlock()
+	rec.add(event{"ev": "final", "drops": int(cnt.drops.Count() - drops0), "errs": int(cnt.errs.Count() - errs0),
+		"nout": int(cnt.out.Count() - out0), "nparse": nparse, "gauge": int(cnt.gauge.Value() - gauge0), "sends": nsend})
+	progress.Emit(event{"k": sc.K, "at": "done"})
+	rec.mu.Lock()
+	defer rec.mu.Unlock()
+	return rec.evs
+}
+
+func TestBatch(t *testing.T) {
+	out := hx.Out(t)
+	scenFile := os.Getenv("VERIF_XB_SCEN")
+	traceFile := os.Getenv("VERIF_XB_TRACE")
+	if scenFile == "" || traceFile == "" {
+		t.Skip("no scenario file")
+	}
+	log.SetOutput(ioutil.Discard)
+	log.SetLevel(log.PanicLevel)
+	stdlog.SetOutput(ioutil.Discard)
+	stats.New("verif")
+
+	lines, err := hx.ReadLines(scenFile)
+	if err != nil {
+		t.Fatal(err)
+	}
+	var scens []scenario
+	for _, l := range lines {
+		var sc scenario
+		if err := json.Unmarshal(l, &sc); err != nil {
+			t.Fatalf("bad scenario: %v", err)
+		}
+		scens = append(scens, sc)
+	}
+	schemas := filepath.Join(out, "xb-storage-schemas.conf")
+	if err := ioutil.WriteFile(schemas, []byte("[default]\npattern = .*\nretentions = 10s:1d\n"), 0644); err != nil {
+		t.Fatal(err)
+	}
+
+	// the fakes and the environment that leads the routes to them (before any route is created)
+	if psFake, err = startPubsubFake(); err != nil {
+		t.Fatal(err)
+	}
+	os.Setenv("PUBSUB_EMULATOR_HOST", psFake.addr)
+	var certPEM []byte
+	var proxy string
+	if cw, certPEM, proxy, err = startCloudwatchFake(); err != nil {
+		t.Fatal(err)
+	}
+	certFile := filepath.Join(out, "xb-cloudwatch-ca.pem")
+	if err := ioutil.WriteFile(certFile, certPEM, 0644); err != nil {
+		t.Fatal(err)
+	}
+	os.Setenv("SSL_CERT_FILE", certFile)
+	os.Setenv("SSL_CERT_DIR", filepath.Join(out, "xb-no-such-dir"))
+	os.Setenv("HTTPS_PROXY", "http://"+proxy)
+	os.Setenv("https_proxy", "http://"+proxy)
+	os.Unsetenv("NO_PROXY")
+	os.Unsetenv("no_proxy")
+	os.Setenv("AWS_ACCESS_KEY_ID", "AKIDVERIF")
+	os.Setenv("AWS_SECRET_ACCESS_KEY", "verifsecret")
+	os.Setenv("AWS_EC2_METADATA_DISABLED", "true")
+	os.Unsetenv("AWS_PROFILE")
+	os.Unsetenv("AWS_SDK_LOAD_CONFIG")
+	os.Unsetenv("AWS_CA_BUNDLE")
+
+	progress := hx.NewLog(filepath.Join(out, "batch_progress.ndjson"))
+	progress.Unbuffered = true
+	defer progress.Close()
+	tr := hx.NewLog(traceFile)
+	defer tr.Close()
+
+	// kafka and pubsub scenarios run side by side (their counters are named after the broker address / the topic);
+	// the cloudwatch counters have fixed names: those scenarios run one after the other, next to the rest
+	par := hx.EnvInt("VERIF_XB_PAR", 4)
+	results := make([][]event, len(scens))
+	sem := make(chan struct{}, par)
+	var wg sync.WaitGroup
+	wg.Add(1)
+	go func() {
+		defer wg.Done()
+		for i := range scens {
+			if scens[i].Kind == "cloudwatch" {
+				results[i] = runScenario(t, scens[i], schemas, progress)
+			}
+		}
+	}()
+	for i := range scens {
+		if scens[i].Kind == "cloudwatch" {
+			continue
+		}
+		wg.Add(1)
+		sem <- struct{}{}
+		go func(i int) {
+			defer wg.Done()
+			defer func() { <-sem }()
+			results[i] = runScenario(t, scens[i], schemas, progress)
+		}(i)
+	}
+	wg.Wait()
+	for _, evs := range results {
+		for _, e := range evs {
+			tr.Emit(e)
+		}
+	}
+	tr.Emit(event{"ev": "done"})
+}
